@@ -2,6 +2,8 @@ package simrt
 
 import (
 	"fmt"
+	"runtime"
+	"time"
 	"unsafe"
 )
 
@@ -245,6 +247,9 @@ func (w *World) pick(exclude *Task) *Task {
 //go:norace
 func (w *World) taskExit(t *Task) {
 	t.state = taskDone
+	if w.dead {
+		return
+	}
 	w.ev(EvTaskExit, uint32(t.id), 0)
 	next := w.pick(t)
 	if next != nil {
@@ -256,7 +261,9 @@ func (w *World) taskExit(t *Task) {
 	}
 	code := RunCompleted
 	for _, o := range w.tasks {
-		if o.state == taskBlocked {
+		// a goroutine the library started that is still waiting when every caller has finished is
+		// a worker waiting for more work (or a leak), not a deadlock: only a blocked caller is one
+		if o.state == taskBlocked && !o.child {
 			code = RunDeadlock
 		}
 	}
@@ -292,11 +299,19 @@ func Go(fn func()) {
 		go fn()
 		return
 	}
+	if w.dead {
+		go fn()
+		return
+	}
 	child := w.newChild()
 	go func() {
 		raceDisable()
 		<-child.wake
 		raceEnable()
+		if w.isDead() {
+			close(child.done) // never started: the world ended first
+			return
+		}
 		defer w.childExit(child)
 		defer func() {
 			if r := recover(); r != nil {
@@ -379,6 +394,56 @@ func (w *World) handToChild(next *Task, blocked bool) {
 	w.mainParked = false
 }
 
+//go:norace
+func (w *World) callerBlocked() bool {
+	for _, o := range w.tasks {
+		if o.state == taskBlocked && !o.child {
+			return true
+		}
+	}
+	return false
+}
+
+//go:norace
+func (w *World) isDead() bool { return w.dead }
+
+// reap ends a library goroutine that was woken only because its world is over (Shutdown): its
+// deferred calls run (the shims do nothing in a dead world) and the goroutine is gone.
+//
+//go:norace
+func (w *World) reap(t *Task) {
+	if w.dead && t.child {
+		runtime.Goexit()
+	}
+}
+
+// Shutdown ends the goroutines the library started in this world and that are still parked -
+// blocked for good, waiting for work that will never come (a long-lived worker), or never
+// started.  Without it every run would leave them behind, with everything they reference.
+func (w *World) Shutdown() {
+	w.markDead()
+	for _, t := range w.tasks {
+		if !t.child || t.isDone() {
+			continue
+		}
+		w.setCur(t)
+		raceDisable()
+		t.wake <- struct{}{}
+		select {
+		case <-t.done:
+		case <-time.After(2 * time.Second):
+			// its deferred calls wait for something real: leave it behind
+		}
+		raceEnable()
+	}
+}
+
+//go:norace
+func (w *World) markDead() { w.dead = true }
+
+//go:norace
+func (w *World) setCur(t *Task) { w.cur = t }
+
 // NumProcs replaces runtime.GOMAXPROCS(0) / runtime.NumCPU() in library code: a worker's real
 // value differs from process to process and must not decide what the library does.
 func NumProcs() int { return 4 }
@@ -388,7 +453,7 @@ func NumProcs() int { return 4 }
 //go:norace
 func Yield(site uint32, class int) {
 	w := W
-	if w == nil {
+	if w == nil || w.dead {
 		return
 	}
 	t := w.cur
@@ -499,12 +564,17 @@ func (w *World) switchTo(t, next *Task, site uint32) {
 	next.wake <- struct{}{}
 	<-t.wake
 	raceEnable()
+	w.reap(t)
 }
 
 // block parks the running task until another task makes it runnable again.
 //
 //go:norace
 func (w *World) block(on unsafe.Pointer, what string) {
+	if w.dead {
+		// a goroutine of a world that is over is running its deferred calls on the way out
+		runtime.Goexit()
+	}
 	t := w.cur
 	if !w.inRun && t == &w.main {
 		// the main goroutine acts as the only caller task: it can wait for goroutines the library
@@ -543,8 +613,9 @@ func (w *World) block(on unsafe.Pointer, what string) {
 			if w.cur == &w.main {
 				w.main.wake <- struct{}{}
 			}
-			<-t.wake // parked for good
+			<-t.wake // parked for good (until the world is shut down)
 			raceEnable()
+			w.reap(t)
 			return
 		}
 		w.cur = next
@@ -552,6 +623,7 @@ func (w *World) block(on unsafe.Pointer, what string) {
 		next.wake <- struct{}{}
 		<-t.wake
 		raceEnable()
+		w.reap(t)
 		return
 	}
 	t.state = taskBlocked
@@ -559,12 +631,20 @@ func (w *World) block(on unsafe.Pointer, what string) {
 	w.ev(EvBlock, uint32(t.id), 0)
 	next := w.pick(t)
 	if next == nil {
-		w.Stats.Deadlocks++
-		w.violate("deadlock", what+": no runnable task")
+		code := RunDeadlock
+		if t.child && !w.callerBlocked() {
+			// every caller has finished and a goroutine the library started waits for more work:
+			// the run is complete (the goroutine is ended when the world is shut down)
+			code = RunCompleted
+		} else {
+			w.Stats.Deadlocks++
+			w.violate("deadlock", what+": no runnable task")
+		}
 		raceDisable()
-		w.mainWake <- RunDeadlock
-		<-t.wake // parked for good (goroutine is leaked; the run is over)
+		w.mainWake <- code
+		<-t.wake // parked for good (caller tasks are leaked, library goroutines reaped at shutdown; the run is over)
 		raceEnable()
+		w.reap(t)
 		return
 	}
 	w.cur = next
@@ -572,6 +652,7 @@ func (w *World) block(on unsafe.Pointer, what string) {
 	next.wake <- struct{}{}
 	<-t.wake
 	raceEnable()
+	w.reap(t)
 }
 
 // unblock makes every task blocked on the given object runnable.
